@@ -131,6 +131,12 @@ def check(run):
         specs = [rand_shell(rng, rng.randint(0, 1 if quick else 2), cs, nprim=rng.randint(2, 3), nseg=rng.randint(1, 2), exp_lo=0.1, exp_hi=10.0)
                  for _ in range(rng.randint(1, 2))]
         rewrites(run, rng, specs, 0, None, ["eri_chemist"])
+    # uncontracted shells with several columns (one primitive, M >= 2): every quartet type must treat the columns alike
+    for it in range(1 if quick else 4):
+        s1 = ShellSpec(it % 2, [0.0, 0.0, 0.0], [1.1], [[1.0, 3.0, -0.5][: 2 + it % 2]])
+        s2 = ShellSpec(1, [0.4, -0.7, 0.9], [0.8], [[1.0]])
+        rewrites(run, rng, [s1, s2], 0, None, ["eri_chemist"])
+        run.count("single-primitive shell with several columns (ERI)")
     # all-s generalized shells go through the dedicated (ss|ss) routine
     for it in range(1 if quick else 4):
         cs = []
